@@ -82,6 +82,21 @@ def mayRead (u : UserView) (b : BoardView) (r : Relation) : Bool :=
 /-- "the caller administers boards or is a named moderator of it" -/
 def administers (u : UserView) (r : Relation) : Bool := boardAdmin u || r.namedBM
 
+/-- the '/'-separated names of a moderator string (Go strings.Split: "" ↦ [""], "a/" ↦ ["a", ""]) -/
+def splitSlash : List Nat → List (List Nat)
+  | [] => [[]]
+  | c :: cs =>
+    if c = 47 then [] :: splitSlash cs
+    else match splitSlash cs with
+      | [] => [[c]]
+      | n :: ns => (c :: n) :: ns
+
+/-- "is a named moderator of it": the user id (C string, non-empty) equals one of the '/'-separated names of the
+board's moderator string; byte-exact comparison, as the code (no case folding). -/
+def namedIn (userID bm : List Nat) : Bool :=
+  let u := cstr userID
+  !u.isEmpty && (splitSlash (cstr bm)).contains u
+
 end Spec
 
 /-! ## The Go decision, mask by mask -/
@@ -112,6 +127,35 @@ def boardPermStatNormally (u : UserView) (b : BoardView) (r : Relation) : Nat :=
 /-- ptt/board.go boardPermStat -/
 def boardPermStat (u : UserView) (b : BoardView) (r : Relation) : Nat :=
   if hasUserPerm u.level (w PERM_SYSOP) then NBRD_FAV else boardPermStatNormally u b r
+
+/-! ### ptt/stuff.go is_uBM, byte level -/
+
+/-- types.Isalnum -/
+def isalnum (c : Nat) : Bool := (65 ≤ c && c ≤ 90) || (97 ≤ c && c ≤ 122) || (48 ≤ c && c ≤ 57)
+
+/-- bytes.Index(s, sub): index of the first occurrence, 0 for an empty `sub` -/
+def bytesIndex (sub : List Nat) : List Nat → Option Nat
+  | [] => if sub.isEmpty then some 0 else none
+  | c :: cs => if sub.isPrefixOf (c :: cs) then some 0 else (bytesIndex sub cs).map (· + 1)
+
+/-- types.Cstrstr: bytes.Index, refused when the index is not below Cstrlen(s) -/
+def cstrstr (s sub : List Nat) : Option Nat :=
+  match bytesIndex sub s with
+  | some i => if i ≥ (cstr s).length then none else some i
+  | none => none
+
+/-- the body of ptt.is_uBM on the two C strings: ONLY the first occurrence of the id in the moderator string is looked
+at; it counts when the bytes before and after it (if any) are not alphanumeric. -/
+def isUBMBytes (u b : List Nat) : Bool :=
+  match cstrstr b u with
+  | none => false
+  | some i =>
+    let head := if i > 0 then !isalnum (b.getD (i - 1) 0) else true
+    let tail := if i + u.length < b.length then !isalnum (b.getD (i + u.length) 0) else true
+    head && tail
+
+/-- ptt.is_uBM(userID, bm) on the raw byte arrays (types.CstrToBytes cuts both at the first NUL) -/
+def isUBM (userID bm : List Nat) : Bool := isUBMBytes (cstr userID) (cstr bm)
 
 /-- ptt/board.go groupOp, statement by statement (the PERM_NOCITIZEN statement assigns the initial value again;
 the level write-back at the end discards its result). -/
@@ -402,10 +446,26 @@ def listAny (fn : String) (env : ListEnv) : ListOut × BoardView :=
   else if stepListings.contains fn then listBoard fn env
   else (.unmodelled fn, env.b)
 
-/-- the bbs wrappers turn the client's "<bid>_<name>" into (bid, name) with BBoardID.ToRaw; whether ToRaw compares
-the name with the name of board <bid> is read from the source (`Gen.bboardIDChecksName`).  `nameMatches`: the
-supplied name is the name of that board. -/
-def bbsRead (nameMatches : Bool) (entry : String) (env : ReadEnv) : ReadOut :=
-  if Gen.ReadEntryPoints.bboardIDChecksName && !nameMatches then .invalidBid else runEntry entry env
+def isToRawPrelude (s : String × String) : Bool := s.1 = "call" || s.1 = "iferr"
+
+/-- the conditions under which bbs.BBoardID.ToRaw compares the client's board name with the name of board <bid>
+(regenerated): `none` = no such comparison before the positive return. -/
+def nameCheckGuard : Option String :=
+  match Gen.ReadEntryPoints.bboardIDToRaw.dropWhile isToRawPrelude with
+  | (k, g) :: _ => if k = "namecheck" then some g else none
+  | [] => none
+
+/-- the comparison is made whenever the board table is attached — in particular it does not depend on the table's
+busy flag -/
+def nameCheckUnconditional : Bool := nameCheckGuard = some "cache.Shm != nil" || nameCheckGuard = some ""
+
+/-- the bbs wrappers turn the client's "<bid>_<name>" into (bid, name) with BBoardID.ToRaw.  `nameMatches`: the
+supplied name is the name of board <bid>; `busy`: Shm.BBusyState ≠ 0 during the call (must not matter). -/
+def bbsRead (_busy nameMatches : Bool) (entry : String) (env : ReadEnv) : ReadOut :=
+  match nameCheckGuard with
+  | none => runEntry entry env
+  | some _ =>
+    if nameCheckUnconditional then (if !nameMatches then .invalidBid else runEntry entry env)
+    else .unmodelled "BBoardID.ToRaw: name comparison under an unknown condition"
 
 end PttVerif.C07
